@@ -1245,4 +1245,357 @@ theorem createByName_none_iff (S : Schema) (base name : String) :
   · intro h c hc; simpa using h c hc
 
 
+/-! ### type-rule overrides -/
+
+/-- the same factory configuration with another `type_rule_overrides` table -/
+def withOverrides (cfg : Config) (ov : ClassRef → Option Conv) : Config := { cfg with overrides := ov }
+
+/-- the class whose override, if there is one, replaces the parsing rule of a slot -/
+def overrideClass (cfg : Config) : Slot → Option ClassRef
+  | .ty ty =>
+    match cfg.schema.find ty with
+    | some (.int ..) => some (.module ty)
+    | some (.bytes _) => (cfg.sdkMapping.find? (·.1 == ty)).map fun nk => ClassRef.sdk nk.2
+    | _ => none
+  | _ => none
+
+theorem ruleOf_withOverrides {cfg : Config} {ov : ClassRef → Option Conv} {slot : Slot}
+    (h : ∀ c, overrideClass cfg slot = some c → ov c = cfg.overrides c) :
+    ruleOf (withOverrides cfg ov) slot = ruleOf cfg slot := by
+  cases slot with
+  | int w s => rfl
+  | barray => rfl
+  | array elem => rfl
+  | ty ty =>
+    simp only [ruleOf, withOverrides, overrideClass] at h ⊢
+    cases hf : cfg.schema.find ty with
+    | none => rfl
+    | some td =>
+      cases td with
+      | int w sg =>
+        simp only [hf] at h ⊢
+        rw [h _ rfl]
+      | bytes n =>
+        simp only [hf] at h ⊢
+        cases hm : cfg.sdkMapping.find? (·.1 == ty) with
+        | none => rfl
+        | some nk =>
+          obtain ⟨n', k⟩ := nk
+          simp only [hm, Option.map_some] at h ⊢
+          rw [h _ rfl]
+      | enum w sg bw ms => rfl
+      | struct d => rfl
+
+theorem ruleOf_override_of {cfg : Config} {slot : Slot} {c : ClassRef} {f : Conv}
+    (hc : overrideClass cfg slot = some c) (hov : cfg.overrides c = some f) : ∃ g, ruleOf cfg slot = .override g ∧ g = f := by
+  cases slot with
+  | int w s => simp [overrideClass] at hc
+  | barray => simp [overrideClass] at hc
+  | array elem => simp [overrideClass] at hc
+  | ty ty =>
+    simp only [overrideClass] at hc
+    simp only [ruleOf]
+    cases hf : cfg.schema.find ty with
+    | none => simp [hf] at hc
+    | some td =>
+      cases td with
+      | int w sg =>
+        simp only [hf, Option.some.injEq] at hc
+        subst hc
+        simp [hov]
+      | bytes n =>
+        simp only [hf] at hc
+        cases hm : cfg.sdkMapping.find? (·.1 == ty) with
+        | none => simp [hm] at hc
+        | some nk =>
+          obtain ⟨n', k⟩ := nk
+          simp only [hm, Option.map_some, Option.some.injEq] at hc
+          subst hc
+          simp [hov]
+      | enum w sg bw ms => simp [hf] at hc
+      | struct d => simp [hf] at hc
+
+/-- **an override is the rule**: whatever the descriptor value (a list or a dict included), the converted value is
+    the override's result, passed through the type converter -/
+theorem coerce_of_override {cfg : Config} {top : Bool} {slot : Slot} {f : Conv} (h : ruleOf cfg slot = .override f)
+    (dv : DVal) : coerce cfg top true slot dv = applyOverride cfg top slot f dv := by
+  cases dv <;> simp [coerce, coerceAtom, h]
+
+
+mutual
+/-- does converting `dv` for a member of slot `slot` consult the override of class `c` anywhere (the member itself, the
+    elements of an array, the members of a nested dictionary)? -/
+def touches (cfg : Config) (c : ClassRef) (hinted : Bool) (slot : Slot) : DVal → Bool
+  | .list l =>
+    (hinted && overrideClass cfg slot == some c) ||
+    (match slot with
+     | .array elem => touchesItems cfg c (hinted && cfg.arrayRules.contains elem) (.ty elem) l
+     | _ => false)
+  | .dict kvs =>
+    (hinted && overrideClass cfg slot == some c) ||
+    (match (if hinted then ruleOf cfg slot else .noRule) with
+     | .struct _ d => touchesEntries cfg c d false kvs
+     | _ => false)
+  | _ => hinted && overrideClass cfg slot == some c
+
+def touchesItems (cfg : Config) (c : ClassRef) (hinted : Bool) (slot : Slot) : List DVal → Bool
+  | [] => false
+  | dv :: rest => touches cfg c hinted slot dv || touchesItems cfg c hinted slot rest
+
+def touchesEntries (cfg : Config) (c : ClassRef) (d : StructDef) (top : Bool) : List (String × DVal) → Bool
+  | [] => false
+  | (key, dv) :: rest =>
+    (if top && key == "type" then false
+     else match classify d key with
+       | .member f => touches cfg c true (slotOf f.kind) dv
+       | _ => false) || touchesEntries cfg c d top rest
+end
+
+theorem convertPlace_withOverrides (cfg : Config) (ov : ClassRef → Option Conv) :
+    convertPlace (withOverrides cfg ov) = convertPlace cfg := rfl
+
+theorem settle_withOverrides (cfg : Config) (ov : ClassRef → Option Conv) (top : Bool) (slot : Slot) (r : DVal) :
+    settle (withOverrides cfg ov) top slot r = settle cfg top slot r := by
+  cases r <;> rfl
+
+theorem coerceAtom_withOverrides {cfg : Config} {ov : ClassRef → Option Conv} {top hinted : Bool} {slot : Slot} {dv : DVal}
+    (h : hinted = true → ruleOf (withOverrides cfg ov) slot = ruleOf cfg slot) :
+    coerceAtom (withOverrides cfg ov) top hinted slot dv = coerceAtom cfg top hinted slot dv := by
+  unfold coerceAtom
+  cases hinted with
+  | false => rfl
+  | true =>
+    simp only [if_true, h rfl]
+    cases ruleOf cfg slot <;> first | rfl | (simp only [applyOverride, settle_withOverrides])
+
+
+theorem rule_agree {cfg : Config} {ov : ClassRef → Option Conv} {c : ClassRef}
+    (hag : ∀ c', c' ≠ c → ov c' = cfg.overrides c') {hinted : Bool} {slot : Slot}
+    (h : (hinted && overrideClass cfg slot == some c) = false) :
+    (if hinted then ruleOf (withOverrides cfg ov) slot else Rule.noRule) = (if hinted then ruleOf cfg slot else Rule.noRule) := by
+  cases hinted with
+  | false => rfl
+  | true =>
+    simp only [if_true]
+    apply ruleOf_withOverrides
+    intro c' hc'
+    apply hag
+    intro e; subst e
+    simp [hc'] at h
+
+theorem stepEntry_congr {cfg cfg' : Config} {d : StructDef} {top : Bool} {key : String} {dv : DVal}
+    (h : ∀ f, classify d key = .member f → (top && key == "type") = false →
+      coerce cfg' top true (slotOf f.kind) dv = coerce cfg top true (slotOf f.kind) dv) (st : St) :
+    stepEntry cfg' d top key dv st = stepEntry cfg d top key dv st := by
+  unfold stepEntry
+  by_cases h1 : (top && key == "type") = true
+  · simp [h1]
+  · have h1' : (top && key == "type") = false := by simpa using h1
+    simp only [h1', Bool.false_eq_true, if_false]
+    split
+    · rfl
+    · cases hc : classify d key with
+      | unknown => rfl
+      | readOnly => rfl
+      | member f => simp only [h f hc h1']
+
+mutual
+theorem coerce_agree {cfg : Config} {ov : ClassRef → Option Conv} {c : ClassRef}
+    (hag : ∀ c', c' ≠ c → ov c' = cfg.overrides c') :
+    ∀ (dv : DVal) (top hinted : Bool) (slot : Slot), touches cfg c hinted slot dv = false →
+      coerce (withOverrides cfg ov) top hinted slot dv = coerce cfg top hinted slot dv
+  | .list l, top, hinted, slot, h => by
+    simp only [touches, Bool.or_eq_false_iff] at h
+    simp only [coerce, rule_agree hag h.1]
+    cases hr : (if hinted then ruleOf cfg slot else Rule.noRule) with
+    | override f => simp only [applyOverride, settle_withOverrides]
+    | noRule | podInt | sdkBytes | enum | struct | array =>
+      cases slot with
+      | array elem =>
+        simp only at h ⊢
+        have := coerceItems_agree hag l (hinted && cfg.arrayRules.contains elem) (.ty elem) h.2
+        simp only [withOverrides] at this ⊢
+        rw [this]
+      | int w s => rfl
+      | barray => rfl
+      | ty t => rfl
+  | .dict kvs, top, hinted, slot, h => by
+    simp only [touches, Bool.or_eq_false_iff] at h
+    simp only [coerce, rule_agree hag h.1]
+    cases hr : (if hinted then ruleOf cfg slot else Rule.noRule) with
+    | override f => simp only [applyOverride, settle_withOverrides]
+    | struct ty d =>
+      simp only [hr] at h
+      have e : (withOverrides cfg ov).schema = cfg.schema := rfl
+      simp only [e]
+      cases hf : freshMembers cfg.schema ty with
+      | error e => rfl
+      | ok fresh =>
+        simp only
+        rw [copyEntries_agree hag kvs ty d false { vs := fresh } h.2]
+    | noRule => rfl
+    | podInt => rfl
+    | sdkBytes => rfl
+    | enum => rfl
+    | array => rfl
+  | .int i, top, hinted, slot, h => by
+    simp only [touches] at h
+    simp only [coerce]
+    exact coerceAtom_withOverrides (fun hh => by have := rule_agree hag h; simpa [hh] using this)
+  | .str s, top, hinted, slot, h => by
+    simp only [touches] at h
+    simp only [coerce]
+    exact coerceAtom_withOverrides (fun hh => by have := rule_agree hag h; simpa [hh] using this)
+  | .bytes b, top, hinted, slot, h => by
+    simp only [touches] at h
+    simp only [coerce]
+    exact coerceAtom_withOverrides (fun hh => by have := rule_agree hag h; simpa [hh] using this)
+  | .sdk k b, top, hinted, slot, h => by
+    simp only [touches] at h
+    simp only [coerce]
+    exact coerceAtom_withOverrides (fun hh => by have := rule_agree hag h; simpa [hh] using this)
+  | .codec k v, top, hinted, slot, h => by
+    simp only [touches] at h
+    simp only [coerce]
+    exact coerceAtom_withOverrides (fun hh => by have := rule_agree hag h; simpa [hh] using this)
+  | .none, top, hinted, slot, h => by
+    simp only [touches] at h
+    simp only [coerce]
+    exact coerceAtom_withOverrides (fun hh => by have := rule_agree hag h; simpa [hh] using this)
+
+theorem coerceItems_agree {cfg : Config} {ov : ClassRef → Option Conv} {c : ClassRef}
+    (hag : ∀ c', c' ≠ c → ov c' = cfg.overrides c') :
+    ∀ (l : List DVal) (hinted : Bool) (slot : Slot), touchesItems cfg c hinted slot l = false →
+      coerceItems (withOverrides cfg ov) hinted slot l = coerceItems cfg hinted slot l
+  | [], _, _, _ => by simp [coerceItems]
+  | dv :: rest, hinted, slot, h => by
+    simp only [touchesItems, Bool.or_eq_false_iff] at h
+    simp only [coerceItems]
+    rw [coerce_agree hag dv false hinted slot h.1, coerceItems_agree hag rest hinted slot h.2]
+
+theorem copyEntries_agree {cfg : Config} {ov : ClassRef → Option Conv} {c : ClassRef}
+    (hag : ∀ c', c' ≠ c → ov c' = cfg.overrides c') :
+    ∀ (kvs : List (String × DVal)) (ty : String) (d : StructDef) (top : Bool) (st : St),
+      touchesEntries cfg c d top kvs = false →
+      copyEntries (withOverrides cfg ov) ty d top kvs st = copyEntries cfg ty d top kvs st
+  | [], _, _, _, _, _ => by simp [copyEntries]
+  | (key, dv) :: rest, ty, d, top, st, h => by
+    simp only [touchesEntries, Bool.or_eq_false_iff] at h
+    rw [copyEntries_cons, copyEntries_cons]
+    have hstep : stepEntry (withOverrides cfg ov) d top key dv st = stepEntry cfg d top key dv st := by
+      apply stepEntry_congr
+      intro f hf hk
+      have h1 := h.1
+      simp only [hk, Bool.false_eq_true, if_false, hf] at h1
+      exact coerce_agree hag dv top true (slotOf f.kind) h1
+    rw [hstep]
+    cases stepEntry cfg d top key dv st with
+    | error e => rfl
+    | ok st' => exact copyEntries_agree hag rest ty d top st' h.2
+end
+
+
+theorem finish_withOverrides (p : Prims) (cfg : Config) (ov : ClassRef → Option Conv) (autosort : Bool) (ty : String)
+    (d : StructDef) (st : St) : finish p (withOverrides cfg ov) autosort ty d st = finish p cfg autosort ty d st := rfl
+
+/-- two override tables that differ only at a class the descriptor never reaches give the same transaction -/
+theorem create_agree {p : Prims} {cfg : Config} {ov : ClassRef → Option Conv} {c : ClassRef}
+    (hag : ∀ c', c' ≠ c → ov c' = cfg.overrides c') {autosort embedded : Bool} {desc : List (String × DVal)}
+    (h : ∀ ty d, resolve cfg embedded (withNetwork cfg desc) = .ok (ty, d) →
+      touchesEntries cfg c d true (withNetwork cfg desc) = false) :
+    create p (withOverrides cfg ov) autosort embedded desc = create p cfg autosort embedded desc := by
+  unfold create build
+  have e1 : withNetwork (withOverrides cfg ov) desc = withNetwork cfg desc := rfl
+  have e2 : resolve (withOverrides cfg ov) embedded (withNetwork cfg desc) = resolve cfg embedded (withNetwork cfg desc) := rfl
+  have e3 : (withOverrides cfg ov).schema = cfg.schema := rfl
+  rw [e1, e2, e3]
+  cases hr : resolve cfg embedded (withNetwork cfg desc) with
+  | error e => rfl
+  | ok r =>
+    obtain ⟨ty, d⟩ := r
+    simp only
+    cases hf : freshMembers cfg.schema ty with
+    | error e => rfl
+    | ok fresh =>
+      simp only
+      rw [copyEntries_agree hag _ ty d true { vs := fresh } (h ty d hr)]
+      cases copyEntries cfg ty d true (withNetwork cfg desc) { vs := fresh } with
+      | error e => rfl
+      | ok st => simp only [finish_withOverrides]
+
+mutual
+theorem touches_unconsulted {cfg : Config} {c : ClassRef} (hc : ∀ slot, overrideClass cfg slot ≠ some c) :
+    ∀ (dv : DVal) (hinted : Bool) (slot : Slot), touches cfg c hinted slot dv = false
+  | .list l, hinted, slot => by
+    have h0 : (overrideClass cfg slot == some c) = false := by simpa using hc slot
+    simp only [touches, h0, Bool.and_false, Bool.false_or]
+    cases slot with
+    | array elem => exact touchesItems_unconsulted hc l _ _
+    | int w s => rfl
+    | barray => rfl
+    | ty t => rfl
+  | .dict kvs, hinted, slot => by
+    have h0 : (overrideClass cfg slot == some c) = false := by simpa using hc slot
+    simp only [touches, h0, Bool.and_false, Bool.false_or]
+    cases (if hinted then ruleOf cfg slot else Rule.noRule) with
+    | struct ty d => exact touchesEntries_unconsulted hc kvs d false
+    | noRule | podInt | sdkBytes | enum | array | override => rfl
+  | .int _, hinted, slot => by simp [touches, hc slot]
+  | .str _, hinted, slot => by simp [touches, hc slot]
+  | .bytes _, hinted, slot => by simp [touches, hc slot]
+  | .sdk _ _, hinted, slot => by simp [touches, hc slot]
+  | .codec _ _, hinted, slot => by simp [touches, hc slot]
+  | .none, hinted, slot => by simp [touches, hc slot]
+
+theorem touchesItems_unconsulted {cfg : Config} {c : ClassRef} (hc : ∀ slot, overrideClass cfg slot ≠ some c) :
+    ∀ (l : List DVal) (hinted : Bool) (slot : Slot), touchesItems cfg c hinted slot l = false
+  | [], _, _ => rfl
+  | dv :: rest, hinted, slot => by
+    simp only [touchesItems, touches_unconsulted hc dv hinted slot, touchesItems_unconsulted hc rest hinted slot, Bool.or_self]
+
+theorem touchesEntries_unconsulted {cfg : Config} {c : ClassRef} (hc : ∀ slot, overrideClass cfg slot ≠ some c) :
+    ∀ (kvs : List (String × DVal)) (d : StructDef) (top : Bool), touchesEntries cfg c d top kvs = false
+  | [], _, _ => rfl
+  | (key, dv) :: rest, d, top => by
+    simp only [touchesEntries, touchesEntries_unconsulted hc rest d top, Bool.or_false]
+    split
+    · rfl
+    · cases classify d key with
+      | member f => exact touches_unconsulted hc dv true _
+      | unknown => rfl
+      | readOnly => rfl
+end
+
+/-! ### the descriptor's own `network` entry -/
+
+theorem setKey_setKey (kvs : List (String × DVal)) (k : String) (x y : DVal) :
+    setKey (setKey kvs k x) k y = setKey kvs k y := by
+  unfold setKey
+  by_cases h : kvs.any (·.1 == k) = true
+  · have h2 : (kvs.map fun kv => if kv.1 == k then (k, x) else kv).any (·.1 == k) = true := by
+      rw [List.any_eq_true] at h ⊢
+      obtain ⟨kv, hkv, hk⟩ := h
+      exact ⟨(k, x), List.mem_map.2 ⟨kv, hkv, by simp [hk]⟩, by simp⟩
+    simp only [h, if_true, h2, List.map_map]
+    apply List.map_congr_left
+    intro kv _
+    simp only [Function.comp]
+    by_cases hk : (kv.1 == k) = true
+    · simp [hk]
+    · simp [hk]
+  · have hf : kvs.any (·.1 == k) = false := by
+      cases hb : kvs.any (·.1 == k) with
+      | false => rfl
+      | true => exact absurd hb h
+    have h2 : (kvs ++ [(k, x)]).any (·.1 == k) = true := by simp
+    simp only [hf, Bool.false_eq_true, if_false, h2, if_true, List.map_append, List.map_cons, List.map_nil,
+      beq_self_eq_true]
+    congr 1
+    rw [List.any_eq_false] at hf
+    conv => rhs; rw [← List.map_id kvs]
+    apply List.map_congr_left
+    intro kv hkv
+    have := hf kv hkv
+    simp [this]
+
 end SymbolVerif.Sdk.Descriptor
